@@ -9,9 +9,14 @@ framing (TdModel.Model.C22), decoders in their panic-explicit form.
   uenc <id> <datahex>             → hex
   udec <hex>                      → ok <id> <datahex> <resthex> | err <tag> | panic
   gzenc <compressedhex>           → hex of the gzip_packed frame
-  gzdec <hex> <outlen> <clean>    → ok <outlen> <resthex> | err <tag> | panic
-                                    (outlen/clean: what the decompressor does with the framed bytes)
-  gzlim <outlen> <clean>          → ok | err <tag>              (the limit logic alone)
+  gzdec <hex> <outlen> <clean> <hdrok> → ok <datalen> <resthex> | err <tag> | panic
+                                    (hdrok/outlen/clean: what the decompressor does with the framed bytes)
+  gzlim <outlen> <clean> <hdrok>  → ok | err <tag>              (the header / limit logic alone)
+  mtcenc <msgs>                   → hex          mt.MsgContainer.Encode; msgs = id:seq:bytes:packedhex;… or -
+  mtcdec <hex>                    → ok <msgs> <resthex> | err <tag>
+  mtrenc <id> <packedhex>         → hex          mt.RPCResult.Encode
+  mtrdec <hex>                    → ok <id> <packedhex> <resthex> | err <tag>
+  mtprealloc <n>                  → capacity pre-allocated by mt.MsgContainer.DecodeBare
 -/
 import TdModel.Model.C22
 open TdModel TdModel.Bin TdModel.C22
@@ -103,21 +108,43 @@ def handle (line : String) : String :=
       | some b => toHexFast b
       | none => "err ops"
     | none => "bad-op"
-  | ["gzdec", h, n, cl] => match ofHexFast h, n.toNat?, parseBool cl with
-    | some b, some n, some cl =>
+  | ["gzdec", h, n, cl, hd] => match ofHexFast h, n.toNat?, parseBool cl, parseBool hd with
+    | some b, some n, some cl, some hd =>
       match gzipUnframeP b with
       | .panic => "panic"
       | .err e => "err " ++ e.tag
       | .ok (_, rest) =>
+        if !hd then "err " ++ errGzipHeader.tag else
         match gunzLimitedLen n cl with
         | .error e => "err " ++ e.tag
         | .ok k => s!"ok {k} {toHexFast rest}"
-    | _, _, _ => "bad-op"
-  | ["gzlim", n, cl] => match n.toNat?, parseBool cl with
-    | some n, some cl => match gunzLimitedLen n cl with
+    | _, _, _, _ => "bad-op"
+  | ["gzlim", n, cl, hd] => match n.toNat?, parseBool cl, parseBool hd with
+    | some n, some cl, some hd =>
+      if !hd then "err " ++ errGzipHeader.tag else
+      match gunzLimitedLen n cl with
       | .error e => "err " ++ e.tag
       | .ok _ => "ok"
+    | _, _, _ => "bad-op"
+  | ["mtcenc", ms] => match parseMsgs ms with
+    | some ms => toHexFast (mtEncodeContainer (ms.map fun m => ⟨m.id, m.seqNo, m.bytes, m.body⟩))
+    | none => "bad-op"
+  | ["mtcdec", h] => match ofHexFast h with
+    | some b => match mtDecodeContainer b with
+      | .ok (ms, r) => "ok " ++ showMsgs (ms.map fun m => ⟨m.msgID, m.seqno, m.bytes, m.packed⟩) ++ " " ++ toHexFast r
+      | .error e => "err " ++ e.tag
+    | none => "bad-op"
+  | ["mtrenc", id, p] => match id.toInt?, ofHexFast p with
+    | some id, some p => toHexFast (mtEncodeResult id p)
     | _, _ => "bad-op"
+  | ["mtrdec", h] => match ofHexFast h with
+    | some b => match mtDecodeResult b with
+      | .ok ((id, p), r) => s!"ok {id} {toHexFast p} {toHexFast r}"
+      | .error e => "err " ++ e.tag
+    | none => "bad-op"
+  | ["mtprealloc", n] => match n.toInt? with
+    | some n => toString (mtPrealloc n)
+    | none => "bad-op"
   | _ => "bad-op"
 
 def main : IO Unit := runDriver handle
